@@ -16,7 +16,8 @@
   log (`Item`s, as in the flat engine) and a GHOST log `glog` of state-level events (a state is
   entered / exited, a transition is offered / executes, an event's processing ends) on which C02/C03 are stated.
 
-  Not modelled: `_final_check`/`on_final` (property C18; no effect while no state is `final`), `NestedState._scope`
+  `_final_check`/`on_final` run after the enter callbacks (`nfinalStage`; the collection order is property C18's
+  business, here it matters as a stage in which a callback may raise).  Not modelled: `NestedState._scope`
   (only the `name` shown while a callback runs), Enum states.
 -/
 import Model.Tree
@@ -69,6 +70,8 @@ structure NCfg where
   queued : Bool := false
   /-- the (single) initial state handed to the constructor, as a path -/
   initial : SPath := []
+  /-- `Machine.on_final` -/
+  onFinal : List Nat := []
   deriving Repr, Inhabited
 
 def NCfg.root (cfg : NCfg) : Scope := { owner := none, states := cfg.states, events := cfg.events, pre := [] }
@@ -268,7 +271,65 @@ def nchangeState (sub : NSub) (sc : Script) (cfg : NCfg) (scope : Scope) (x : Ct
     (exitAll sub sc cfg x r.exits { s with exited := s.exited ++ r.exitNames }).bind fun _ s1 =>
       enterAll sub sc cfg x r.enters { s1 with conf := r.tree }
 
-/-- `Transition.execute` with the nested `_change_state`. -/
+/-! ### `_final_check` (the tail of `_change_state`) -/
+
+/-- the loop `for child_cbs, child_final in (self._final_check_nested(state, …) for state in state_tree)` of
+`_final_check`, run in scope `sc` over the (new) configuration below it; `E` = the paths of the states the
+transition enters (`_just_entered`: an enter partial targets the scoped state object at the scoped path);
+accumulators `on_final_cbs` (one callback list per collected partial) and `all_children_final`.
+For every key: `with machine(state):` (KeyError → `other`), the recursive `_final_check`, its verdict:
+
+    leaf:                 final → ([own on_final] if just entered, True) else ([], False)
+    all children final:   (children's partials + own if any was collected or just entered, True)
+    otherwise:            (children's partials + own if tagged final and just entered, False) -/
+def nfinalLoop (E : List SPath) : Scope → Forest → List (List Nat) → Bool → PR (List (List Nat) × Bool)
+  | _, .nil, cbs, all => .ok (cbs, all)
+  | sc, .cons k sub rest, cbs, all =>
+    match sc.enter k with
+    | none => .err .other
+    | some inner =>
+      (nfinalLoop E inner sub [] true).bind fun r =>
+        let d := inner.owner.getD default
+        let je := E.contains inner.pre
+        let c : List (List Nat) × Bool :=
+          if sub.isEmpty then
+            (if d.final then (if je then [d.onFinal] else [], true) else ([], false))
+          else if r.2 then (if !r.1.isEmpty || je then r.1 ++ [d.onFinal] else r.1, true)
+          else if d.final && je then (r.1 ++ [d.onFinal], false)
+          else (r.1, false)
+        nfinalLoop E sc rest (cbs ++ c.1) (all && c.2)
+
+/-- `_final_check` at the root scope (`with event_data.machine():` — `scoped` is the machine: no `final`, and
+`machine.scoped_enter` raises AttributeError when `_just_entered` gets to evaluate it) -/
+def nfinalCheckRoot (cfg : NCfg) (tree : Forest) (E : List SPath) : PR (List (List Nat)) :=
+  (nfinalLoop E cfg.root tree [] true).bind fun r =>
+    if tree.isEmpty then .ok []
+    else if r.2 then
+      if !r.1.isEmpty then .ok (r.1 ++ [cfg.onFinal])
+      else if E.isEmpty then .ok r.1
+      else .err .attributeError
+    else .ok r.1
+
+/-- the tail of `NestedTransition._change_state`, after the enter partials:
+`on_final_cbs, _ = self._final_check(event_data, state_tree, enter_partials); for cb in on_final_cbs: cb()`.
+`state_tree` and `enter_partials` are what `_resolve_transition` computed from the configuration `conf0` the
+transition started from (a pure function, re-evaluated here; `nchangeState` is kept as exits / `_update_model` /
+enters so that the frame lemmas of C02 / C03 about it stand).  Consecutive `machine.callbacks(l)` calls are one
+`callbacks` over the concatenation. -/
+def nfinalStage (sub : NSub) (sc : Script) (cfg : NCfg) (scope : Scope) (x : Ctx) (dest : Option SPath)
+    (conf0 : Forest) (s : NSt) : NR Unit :=
+  match dest with
+  | none => .ok () s
+  | some d =>
+    match resolveTransition cfg.root scope conf0 d with
+    | .ok r =>
+      match nfinalCheckRoot cfg r.tree (r.enters.map (·.path)) with
+      | .ok cbs => ncallbacks sub sc cfg .onFinal x cbs.flatten s
+      | .err e => .err e s
+      | .oof => .oof
+    | _ => .ok () s        -- not reached: `nchangeState` has resolved the same transition
+
+/-- `Transition.execute` with the nested `_change_state` (`nchangeState` then `nfinalStage`). -/
 def nexecute (sub : NSub) (sc : Script) (cfg : NCfg) (scope : Scope) (x : Ctx) (tr : TRef) (t : NTrans) (s : NSt) : NR Bool :=
   (ncallbacks sub sc cfg .prepare x t.prepare (s.emitG (.cand tr))).bind fun _ s1 =>
     (nevalConds sub sc cfg x t.conds s1).bind fun ok s2 =>
@@ -278,6 +339,7 @@ def nexecute (sub : NSub) (sc : Script) (cfg : NCfg) (scope : Scope) (x : Ctx) (
       (match t.dest with
         | some d => nchangeState sub sc cfg scope x d s4
         | none => .ok () s4).bind fun _ s5 =>
+      (nfinalStage sub sc cfg scope x t.dest s4.conf s5).bind fun _ s5 =>
       (ncallbacks sub sc cfg .after x t.after s5).bind fun _ s6 =>
       (ncallbacks sub sc cfg .afterSC x cfg.afterSC s6).bind fun _ s7 =>
         .ok true s7
